@@ -34,7 +34,8 @@ CLAIM = {
             "controllers. Tie: exact in-Coq correspondence with the real prepare_run_ctrl / _evaluate_multinet / "
             "net_initialization_multinet driven by scripted run functions.",
     "note": "Theorems over R use the standard-library real axioms (ClassicalDedekindReals.sig_forall_dec, sig_not_dec, "
-            "FunctionalExtensionality.functional_extensionality_dep); bookkeeping, Standalone and the C13 instance's model "
+            "FunctionalExtensionality.functional_extensionality_dep as Print Assumptions lists them; coqchk on the library closure "
+            "of Props / PropsRun additionally lists Classical_Prop.classic; Standalone: none); bookkeeping, Standalone and the C13 instance's model "
             "part are axiom-free apart from those reals. Assumed (oracles): pandapower control_implementation calls the "
             "evaluate function once per control iteration of a level and raises when ctrl_variables['converged'] is false; "
             "_evaluate_net sets the flag from net['converged']; get_controller_order sorts by level / order; ConstControl "
